@@ -212,6 +212,11 @@ func runR(c RCase) (out vstat.Outcome, err error) {
 			if a == b || len(s.Produced) >= maxChanges {
 				break
 			}
+			// the same account on two devices writes the same content on the same heads:
+			// let the network settle first so that both replicas stand on the same heads
+			if err = s.Drain(20000); err != nil {
+				break
+			}
 			ts := s.Clock() + 100000 + int64(i)
 			data := []byte(fmt.Sprintf("twin-%d", i))
 			ra, e1 := s.EditAs(a, a, data, ts, false)
